@@ -4,7 +4,7 @@ EXTENDS FormatsRel
 \* ---- cells
 VARIABLES ms, place, filler, junk, trailer
 cvars == <<ms, place, filler, junk, trailer>>
-CellInit == /\ ms \in SUBSET Markers /\ place \in {"root", "dir"} /\ filler \in {"none", "data0"}
+CellInit == /\ ms \in SUBSET Markers /\ place \in {"root", "dir"} /\ filler \in {"none", "data0", "mar"}     \* mar: also holds a manifest (.json), a serialised model (.pt) and code (.py)
             /\ junk \in BOOLEAN /\ trailer \in {"none", "pickle", "tar"}
 CellSpec == CellInit /\ [][UNCHANGED cvars]_cvars
 EmitCell == PrintT(<<"CELL", ToJson([ms |-> ms, place |-> place, filler |-> filler, junk |-> junk, trailer |-> trailer])>>)
